@@ -1,8 +1,8 @@
 Require Extraction.
 Require Import ExtrOcamlBasic.
-Require Import BertE.Base.Anchors BertE.Model.Git BertE.Model.Flow BertE.Model.Gate BertE.Model.Publish BertE.Model.QueueValid
+Require Import BertE.Base.Anchors BertE.Model.Pipeline BertE.Model.Git BertE.Model.Flow BertE.Model.Gate BertE.Model.Publish BertE.Model.QueueValid
                BertE.Spec.C02Spec.
 Extraction "../build/ocaml/C02/model.ml" anchor_types git_merge anc push_all_atomic push_names
   merge_integration_ops merge_queues_ops merge_integration merge_queues add_to_queue add_to_queue_ops incl_b
   update_ops check_in_sync is_needed
-  publish named count_pall landed all_or_none state_ok_b shape_ok validate queued half_master half_int.
+  publish named count_pall landed all_or_none state_ok_b shape_ok validate queued half_master half_int run_handler.
